@@ -23,17 +23,22 @@ M={
  "M23-update-for-any-source-answer": (F, "\t\tpinStatus, _ := ipfs.PinLsCid(ctx, fromPin)\n\t\tif pinStatus.IsPinned(-1) { // pinned recursively.", "\t\tpinStatus, lerr := ipfs.PinLsCid(ctx, fromPin)\n\t\tif lerr == nil || pinStatus.IsPinned(-1) { // pinned recursively."),
  "M24-progress-false": (F, "pin/add?arg=%s&%s&progress=true", "pin/add?arg=%s&%s&progress=false"),
  "M25-ispinned-depth-accepts-direct": (T, "\tcase maxDepth > 0:\n\t\t// FIXME: when we know how ipfs returns partial pins.\n\t\treturn ips == IPFSPinStatusRecursive", "\tcase maxDepth > 0:\n\t\t// FIXME: when we know how ipfs returns partial pins.\n\t\treturn ips == IPFSPinStatusRecursive || ips == IPFSPinStatusDirect"),
+ "M26-stream-error-unnoticed-both": (F, "\t\tif pins.Type == \"error\" {", "\t\tif false && pins.Type == \"error\" {", "\t\t\t\t\tif streamErr := res.Trailer.Get(\"X-Stream-Error\"); streamErr != \"\" {", "\t\t\t\t\tif streamErr := res.Trailer.Get(\"X-Stream-Error\"); false && streamErr != \"\" {"),
+ "M27-stream-error-object-unnoticed": (F, "\t\tif pins.Type == \"error\" {", "\t\tif false && pins.Type == \"error\" {"),
+ "M28-stream-error-trailer-unnoticed": (F, "\t\t\t\t\tif streamErr := res.Trailer.Get(\"X-Stream-Error\"); streamErr != \"\" {", "\t\t\t\t\tif streamErr := res.Trailer.Get(\"X-Stream-Error\"); false && streamErr != \"\" {"),
  "M17-ls-always-type-recursive": (F, "\tpinType := pin.MaxDepth.ToPinMode().String()", "\tpinType := \"recursive\"\n\t_ = pin.MaxDepth.ToPinMode()"),
  "M18-ipfs-error-on-add-ignored": (F, "\t_, err = checkResponse(path, res)\n\tif err != nil {\n\t\treturn err\n\t}\n\n\tdec := json.NewDecoder(res.Body)", "\t_, err = checkResponse(path, res)\n\tif _, isIpfs := err.(ipfsError); err != nil && !isIpfs {\n\t\treturn err\n\t}\n\n\tdec := json.NewDecoder(res.Body)"),
 }
 which=sys.argv[1:] or list(M)
 for name in which:
-    f,a,b=M[name]
+    f,*pairs=M[name]
     subprocess.run(["git","-C",R,"checkout","-q","."])
     s=open(f).read()
-    if a not in s:
+    if any(pairs[k] not in s for k in range(0,len(pairs),2)):
         print(name,"PATTERN NOT FOUND"); continue
-    open(f,"w").write(s.replace(a,b,1))
+    for k in range(0,len(pairs),2):
+        s=s.replace(pairs[k],pairs[k+1],1)
+    open(f,"w").write(s)
     env=dict(os.environ,VERIF_REPO=R)
     p=subprocess.run(["./check","C16"],cwd="/work/C16",env=env,stdout=subprocess.PIPE,stderr=subprocess.STDOUT,text=True)
     lines=[l[:330] for l in p.stdout.split("\n") if l.strip() and not l.startswith("KNOWN-FINDING")]
